@@ -31,7 +31,8 @@ COLPOS = {"inserted_column_idxs", "diff_column_idxs", "derived_column_idxs"}
 COLPOSMAT = {"pairwise_indices", "pairwise_indices_alt", "pairwise_means_indices",
              "pairwise_means_indices_alt"}
 # 1-D outputs whose axis cannot be told from the name
-SKIP = {"shape", "payload_order", "is_empty", "pairwise_significance_tests", "summary_pairwise_indices",
+COLPOSVEC = {"summary_pairwise_indices"}
+SKIP = {"shape", "payload_order", "is_empty", "pairwise_significance_tests",
         "smoothed_column_index", "smoothed_column_percentages", "smoothed_column_proportions",
         "smoothed_columns_scale_mean", "smoothed_means", "row_count",
         "columns_scale_mean_pairwise_indices", "columns_scale_mean_pairwise_indices_alt"}
@@ -148,6 +149,10 @@ def record_pair(trace_id, base_part, xf_part, two_d):
             elif key in COLPOS:
                 ev.append({"op": "colpos", "prop": key, "base": [int(v) for v in b],
                            "xf": [int(v) for v in x]})
+            elif key in COLPOSVEC:
+                ev.append({"op": "colposvec", "prop": key,
+                           "base": [[int(c) for c in cell] for cell in b],
+                           "xf": [[int(c) for c in cell] for cell in x]})
             elif key in COLPOSMAT:
                 ev.append({"op": "colposmat", "prop": key,
                            "base": [[[int(c) for c in cell] for cell in row] for row in b],
